@@ -35,7 +35,7 @@ def run(args_for_port, respond, timeout=120, home_tag="cli-home"):
             except OSError:
                 continue
             try:
-                raw.settimeout(3)
+                raw.settimeout(20)
                 conn = sctx.wrap_socket(raw, server_side=True)
                 try:
                     d = b""
